@@ -27,7 +27,8 @@ Leaf    == [k |-> "leaf", typ |-> "flag", opnd |-> "F", form |-> "bare"]
 
 (* bodies allowed where a break (b) / continue (c) is legal *)
 Inner(b, c) ==
-    {<<>>, <<Cmd>>, <<End>>, <<Ret>>, <<Lab, Cmd>>, <<GotoL>>, <<Cmd, GotoX>>}
+    {<<>>, <<Cmd>>, <<End>>, <<Ret>>, <<Lab, Cmd>>, <<GotoL>>, <<Cmd, GotoX>>,
+     <<End, Lab>>}                        \* a block whose last command is end, followed by a label only
     \cup (IF b THEN {<<Brk>>, <<Cmd, Brk>>, <<Brk, Lab, Cmd>>} ELSE {})
     \cup (IF c THEN {<<Cont>>, <<Cmd, Cont>>} ELSE {})
 
